@@ -315,3 +315,34 @@ func c02LockProbe(r *h.Result, rng *h.Rng, rounds, iters int, only string) error
 	}
 	return nil
 }
+
+// c02ReplayProbe re-runs the configuration of a recorded lock-probe finding (the schedule is the Go scheduler's: four rounds)
+func c02ReplayProbe(r *h.Result, rng *h.Rng, doc map[string]any, only string) error {
+	num := func(k string, d int) int {
+		if v, ok := doc[k].(float64); ok {
+			return int(v)
+		}
+		return d
+	}
+	kind, _ := doc["table"].(string)
+	if kind == "" {
+		kind = "samples"
+	}
+	allFail, _ := doc["every_insert_fails"].(bool)
+	r.Stream("lock-probe (replay): the recorded table, writer count, iteration count and pause, four rounds")
+	for i := 0; i < 4; i++ {
+		finds, st, err := c02ProbeRound(rng.Fork(), kind, num("writers", 4), num("iterations", 120),
+			time.Duration(num("pause_inside_AcquireColumns_us", 100))*time.Microsecond, allFail, i)
+		if err != nil {
+			return err
+		}
+		r.Case(fmt.Sprintf("lock-probe-replay:%d", i), st.blocks >= 2)
+		r.Evaluations += st.requests
+		for _, f := range finds {
+			if strings.HasPrefix(f.key, only) {
+				r.Violate(f.key, f.what, f.replay)
+			}
+		}
+	}
+	return nil
+}
